@@ -580,10 +580,18 @@ pub fn main_many(args: &[String]) {
         let content = |i: usize| -> Vec<u8> { archive::file_bytes(&par, (i % 251) as u64, i % 13, i % 29) };
         let r = guarded(|| -> Result<(), (String, String)> {
             let mut w = ArchiveWriter::from_config(Vec::new(), archive::writer_config(&par)).map_err(|e| ("create-error".to_string(), format!("{e:?}")))?;
+            // INTERACTION count x interleaving: one file (index n) stays OPEN while the n others are added and closed (a log
+            // collected during a backup): it gets its first bytes before them and its last bytes after them
+            let clog = content(n);
+            let log_id = w.start_file(&many_name(n)).map_err(|e| ("valid-call-refused".to_string(), format!("start_file (long-lived): {e:?}")))?;
+            w.append_file_content(log_id, (clog.len() / 2) as u64, &clog[..clog.len() / 2]).map_err(|e| ("valid-call-refused".to_string(), format!("{e:?}")))?;
             for i in 0..n {
                 let c = content(i);
                 w.add_file(&many_name(i), c.len() as u64, &c[..]).map_err(|e| ("valid-call-refused".to_string(), format!("add_file #{i}: {e:?}")))?;
             }
+            w.append_file_content(log_id, (clog.len() - clog.len() / 2) as u64, &clog[clog.len() / 2..]).map_err(|e| ("valid-call-refused".to_string(), format!("{e:?}")))?;
+            w.end_file(log_id).map_err(|e| ("valid-call-refused".to_string(), format!("end_file (long-lived): {e:?}")))?;
+            let n = n + 1;          // files in the archive from here on
             w.finalize().map_err(|e| ("valid-call-refused".to_string(), format!("finalize: {e:?}")))?;
             let bytes = w.into_raw();
             if mode == "sources" {
